@@ -82,4 +82,19 @@ def check(ctx: Ctx) -> None:
             b = _call(model, sink.qualname, lambda it: [outcome, it.enum(f"ahbicht.models.enums.{icls}", iname), False])
             ctx.count()
             ctx.ob("C14.rows", f"{iname},{outcome}", a == b, f"the flag changes the status of {iname} with outcome {outcome}: {a} vs {b}", file=FILE, function=sink.qualname)
+    # the two public entry points take the flag as their second parameter: passing it by position or by keyword is the same call
+    def entry_styles():
+        seg = {"kind": "segment", "disc": "SEG", "expr": "Soll [1]", "elements": [{"kind": "freetext", "disc": "DE", "expr": "Soll [2]", "input": None}]}
+        grp = {"kind": "group", "disc": "SG", "expr": "Soll", "groups": [], "segments": [seg]}
+        for entry, node in (("level", seg), ("level", grp), ("deep", grp)):
+            for flag in (True, False):
+                env = {"rc": {"1": "FULFILLED", "2": "FULFILLED"}, "fc_text": {}, "soll": flag}
+                kw = valsweep.run_validation(model, entry, node, env)
+                pos = valsweep.run_validation(model, entry, node, env, positional=True)
+                ctx.count(2)
+                ctx.ob("C14.thread", f"entry:{entry}:{node['kind']}:flag={flag}", kw[:2] == pos[:2],
+                       f"validate_{'deep_anwendungshandbuch' if entry == 'deep' else 'segment_level'}(x, {flag}) gives {pos[:2]} but with soll_is_required={flag} by keyword {kw[:2]}: "
+                       "the flag passed by position does not reach the levels below", file=FILE)
+
+    ctx.soft(entry_styles)
     ctx.soft(lambda: valsweep.report(ctx, ("C14.rewrite", "C13.tree")))
